@@ -190,6 +190,14 @@ func (r *Run) ViolationN(attrs map[string]string, size int, detail any, n int64)
 			break
 		}
 	}
+	if f := os.Getenv("VERIF_DUMP_VIOLATIONS"); f != "" && k < 0 {
+		// debugging aid: every unlisted failing case, one JSON line each
+		if fh, err := os.OpenFile(f, os.O_APPEND|os.O_CREATE|os.O_WRONLY, 0o644); err == nil {
+			b, _ := json.Marshal(attrs)
+			fh.Write(append(b, '\n'))
+			fh.Close()
+		}
+	}
 	key := attrs["class"]
 	if k >= 0 {
 		key = "known:" + r.known[k].Name
